@@ -287,7 +287,8 @@ PAIR_EXCEPTIONS = {'meta_help::write_help_item': 'GroupStart opens Block+Definit
 def block_tokens(b):
     out = []
     for c in b.calls():
-        if c.is_(r'^buffer::Doc::token$'):
+        # buf.token(Token::..) and the raw form used inside Doc itself: self.tokens.push(Token::..)
+        if c.is_(r'^buffer::Doc::token$') or (c.is_(r'Vec::<.*>::push$') and 'buffer::Token' in c.full):
             for r in provenance(b, c.args[1], c.bb, 'term', through=None):
                 if r.kind == 'agg' and r.what in ('buffer::Token::BlockStart', 'buffer::Token::BlockEnd'):
                     for q in provenance(b, r.extra['fields'][0], r.site[0], r.site[1], through=None):
@@ -316,6 +317,14 @@ def pairing(ctx, cfg, fs):
             reach = reachable_edges(b, c.target, avoid=closers) if c.target is not None else set()
             if any(r in reach for r in b.return_blocks()):
                 bad.append(k)
+        # ... and no BlockEnd without its BlockStart before it (a guard on the opener must cover the closer too)
+        bad2 = []
+        for (c, se, k) in toks:
+            if se != 'BlockEnd': continue
+            openers = [x.bb for (x, se2, k2) in toks if se2 == 'BlockStart' and k2 == k]
+            if c.bb in reachable_edges(b, 0, avoid=openers) and c.bb not in openers:
+                bad2.append(k)
+        ctx.ob('P.token-pairing', '%s:opened-before-closed' % short(b.path), not bad2, '%s: every BlockEnd is reached only after its BlockStart: %s' % (short(b.path), bad2 or 'ok'), where=b.where(), cfg=cfg)
         ctx.ob('P.token-pairing', '%s:closed-on-all-paths' % short(b.path), not bad, '%s: every BlockStart is followed by its BlockEnd on every path to the return: %s' % (short(b.path), bad or 'ok'), where=b.where(), cfg=cfg)
 
 def escaper(ctx, cfg, fs):
@@ -642,6 +651,22 @@ def sections(ctx, cfg, fs):
         if sw.kind == 'enum' and sw.enum and 'Option' in sw.enum and any(r.kind == 'call' and r.call.is_(r'Iterator>?::next$') for r in provenance(b, sw.place, sw.discr_site[0], sw.discr_site[1], through=None)): continue
         other.append(b.where(a))
     ctx.ob('S.sections', 'extract_sections:no-extra-filter', not other, 'nothing but "is a command" decides whether a level is documented: %s' % (other or 'ok'), where=b.where(), cfg=cfg)
+    # what the generators know about a subcommand is the copy of its Info kept in Item::Command: it is the subparser's OWN Info, cloned
+    # whole (texts AND the configured help / version flags), not a selection of fields over defaults
+    ci = fs.find(r'^params::ParseCommand::<T>::item$', required=False)
+    if ci:
+        x = ctx.look(ci[0])
+        srcs = []
+        for i, k, st in x.stmts():
+            if st['k'] == 'assign' and st['rv']['k'] == 'agg' and st['rv'].get('variant') == 'Command' and 'info' in (st['rv'].get('field_names') or []):
+                names = st['rv']['field_names']
+                for r in provenance(x, st['rv']['fields'][names.index('info')], i, k, through=DEFAULT_THROUGH + [r'Box::<.*>::new$']):
+                    if r.kind == 'param' and r.path[-2:] == ['subparser', 'info']:
+                        srcs.append('clone of self.subparser.info')
+                    else:
+                        srcs.append('%s:%s' % (r.kind, r.what if r.kind != 'call' else short(r.call.name)))
+        ctx.ob('S.sections', 'Item::Command:info-is-the-subparsers-own', bool(srcs) and all(s_ == 'clone of self.subparser.info' for s_ in srcs),
+               'the Info recorded for a subcommand is %s' % sorted(set(srcs)), where=x.where(), cfg=cfg)
     for rx, nm in ((r'^buffer::html::collect_html$', 'collect_html'), (r'OptionParser<T>>::render_manpage$', 'render_manpage')):
         x = ctx.look(fs.one(rx))
         es = [c for c in x.calls() if c.is_(r'^buffer::extract_sections$')]
